@@ -15,6 +15,9 @@ def main(argv=None):
     ap.add_argument("--repo", default=os.environ.get("VERIF_REPO", "/repo"))
     args = ap.parse_args(argv)
     prop = args.prop.upper()
+    if args.tier == "thorough" and "VERIF_BUDGET_S" not in os.environ:
+        from . import affine
+        affine.BUDGET_S = 3600
     try:
         mod = importlib.import_module("sa.props." + prop.lower())
     except ModuleNotFoundError:
